@@ -17,6 +17,7 @@ R = __import__("sys").modules["dask.array.rechunk"]
 PROPERTY = "C23"
 LEVEL = "other"
 BUDGET = {"quick": 150, "thorough": 1500}
+PATH_TIMEOUT_S = 30      # the planners are instant; a path that takes this long is a hang
 EXPLANATION = (
     "Bounded symbolic execution of the chunk arithmetic kernels. normalize_chunks / blockdims_from_blockshape / "
     "_convert_int_chunk_to_tuple with symbolic shape dims and chunk sizes for every chunk-spec kind (int, per-axis ints, explicit "
@@ -371,7 +372,53 @@ def _compositions(n, kmax):
     return out
 
 
-def mk_auto_prev(shapes, kmax, limits):
+def mk_plan_general(chi, lims, single1=False):
+    """plan_rechunk on 2-d arrays with two old and two new chunks per axis (every combination with equal sums, sizes <= chi; with
+    single1 the old chunking of axis 1 is a single chunk), tight block_size_limits and thresholds 1-2 that force the split-then-merge
+    pass: every stage adds up to the shape, the last stage is the target, and the planner must not fail (its inputs are concretised by
+    its own float arithmetic: solver-enumerated)"""
+    def setup(e):
+        axes = []
+        for ax in range(2):
+            c, d = e.int(f"new{ax}_0", 1, chi), e.int(f"new{ax}_1", 1, chi)
+            if ax == 1 and single1:
+                axes.append(((c + d,), (c, d)))
+                continue
+            a = e.int(f"old{ax}_0", 1, chi)
+            b = c + d - a
+            e.assume(lambda: (b >= 1) & (b <= chi))
+            axes.append(((a, b), (c, d)))
+        thr = e.pick("threshold", (1, 2))
+        lim = e.pick("limit", lims)
+        return axes, thr, lim
+
+    def run(e, axes, thr, lim):
+        import operator
+        old = tuple(tuple(operator.index(x) for x in ax[0]) for ax in axes)
+        new = tuple(tuple(operator.index(x) for x in ax[1]) for ax in axes)
+        shape = tuple(sum(c) for c in old)
+        steps = R.plan_rechunk(old, new, 1, threshold=thr, block_size_limit=lim)
+        e.check(len(steps) >= 1, "empty plan")
+        for st in steps:
+            e.check(tuple(sum(c) for c in st) == shape and all(x > 0 for c in st for x in c), f"stage {st} does not tile the shape {shape}")
+        e.check(tuple(tuple(c) for c in steps[-1]) == new, f"last stage {steps[-1]} is not the target {new}")
+        return [tuple(tuple(int(x) for x in c) for c in st) for st in steps]
+
+    def e2e(model):
+        from symx.core import NativeEngine
+        axes, thr, lim = setup(NativeEngine(model))
+        old = tuple(ax[0] for ax in axes)
+        new = tuple(ax[1] for ax in axes)
+        shape = tuple(sum(c) for c in old)
+        x = np.arange(int(np.prod(shape))).reshape(shape)
+        r = da.from_array(x, chunks=old).rechunk(new, threshold=thr, block_size_limit=lim * x.dtype.itemsize)
+        if r.chunks != new or not (r.compute(scheduler="sync") == x).all():
+            raise Violation(f"rechunk {old} -> {new} (threshold={thr}, block_size_limit={lim} elements): chunks {r.chunks} or values differ")
+
+    return Obligation(f"plan_rechunk_general[c<={chi},limits={list(lims)}{',axis1 from one chunk' if single1 else ''}]", setup, run, e2e=e2e, e2e_every=23)
+
+
+def mk_auto_prev(shapes, kmax, limits, what):
     """'auto' on BOTH axes with previous_chunks (what x.rechunk('auto') does): fractional powers and np.median make this float code, so
     shapes, previous chunkings and limits are solver-enumerated. Bound asserted: block bytes <= limit * array.chunk-size-tolerance (the
     documented slack of this mode; the property's plain 'within the limit' is asserted by auto[...] for the mode without previous_chunks)."""
@@ -380,6 +427,14 @@ def mk_auto_prev(shapes, kmax, limits):
     def setup(e):
         shape = e.pick("shape", shapes)
         prev = tuple(e.pick(f"prev{a}", _compositions(d, kmax)) for a, d in enumerate(shape))
+        # zero-width chunks among the previous ones (as left behind by boolean indexing + compute_chunk_sizes)
+        zeros = e.pick("zero_chunks", ("none", "front0", "front1", "both_ends0"))      # model variable zero_chunks: index into this tuple
+        if zeros == "front0":
+            prev = ((0,) * len(prev[0]) + prev[0],) + prev[1:]
+        elif zeros == "front1":
+            prev = prev[:1] + ((0,) * len(prev[1]) + prev[1],)
+        elif zeros == "both_ends0":
+            prev = ((0,) + prev[0] + (0,),) + prev[1:]
         limit = e.pick("limit", limits)
         return shape, prev, limit
 
@@ -387,19 +442,22 @@ def mk_auto_prev(shapes, kmax, limits):
         tol = dask.config.get("array.chunk-size-tolerance")
         out = AC.normalize_chunks(("auto", "auto"), shape=shape, limit=limit, dtype=np.dtype("u1"), previous_chunks=prev)
         for a in range(2):
-            e.check(sum(out[a]) == shape[a] and all(c > 0 for c in out[a]), f"auto chunks {out[a]} do not tile dimension {shape[a]}")
-        blk = max(out[0]) * max(out[1])
-        e.check(blk <= limit * tol + 1e-9, f"auto chunks {out} (largest block {blk} bytes) exceed limit {limit} x tolerance {tol} for previous chunks {prev}")
+            e.check(sum(out[a]) == shape[a] and all(c > 0 for c in out[a]), f"auto chunks {out[a]} do not tile dimension {shape[a]} (previous chunks {prev})")
+        if what == "bound":
+            blk = max(out[0]) * max(out[1])
+            e.check(blk <= limit * tol + 1e-9, f"auto chunks {out} (largest block {blk} bytes) exceed limit {limit} x tolerance {tol} for previous chunks {prev}")
         return out
 
-    return Obligation(f"auto_previous_chunks[{len(shapes)} shapes,<= {kmax} chunks/axis]", setup, run)
+    # two obligations over the same inputs: `tiling` (chunks tile the shape, no exception, no hang) and `bound` (block bytes); the
+    # listed known finding about zero-width previous chunks only concerns `bound`
+    return Obligation(f"auto_previous_{what}[{len(shapes)} shapes,<= {kmax} chunks/axis]", setup, run)
 
 
 def obligations(tier):
     if tier == "quick":
         return [mk_normalize(1, 8), mk_normalize(2, 5),
                 mk_old_to_new(1, 3, True), mk_old_to_new(3, 1, True), mk_old_to_new(2, 2, True), mk_old_to_new(3, 3, False), mk_old_to_new(2, 3, True),
-                mk_divide(1, 12), mk_divide(2, 8), mk_merge(3, 3), mk_plan(2, 3, 2), mk_auto(8, 32), mk_auto_prev([(6, 6), (8, 5), (12, 12)], 2, (4, 8, 16, 40))]
+                mk_divide(1, 12), mk_divide(2, 8), mk_merge(3, 3), mk_plan(2, 3, 2), mk_plan_general(4, (4, 8, 16)), mk_plan_general(6, (3, 8), single1=True), mk_auto(8, 32), mk_auto_prev([(6, 6), (8, 5), (12, 12)], 2, (4, 8, 16, 40), "tiling"), mk_auto_prev([(6, 6), (8, 5), (12, 12)], 2, (4, 8, 16, 40), "bound")]
     return [mk_normalize(1, 12), mk_normalize(2, 8),
             mk_old_to_new(1, 4, True), mk_old_to_new(4, 1, True), mk_old_to_new(3, 3, True), mk_old_to_new(4, 4, False), mk_old_to_new(3, 4, True), mk_old_to_new(4, 2, True),
-            mk_divide(1, 20), mk_divide(2, 12), mk_divide(3, 8), mk_merge(4, 3), mk_merge(5, 2), mk_plan(3, 3, 3), mk_plan(2, 4, 2), mk_auto(12, 64), mk_auto_prev([(6, 6), (8, 5), (12, 12), (7, 9), (20, 20)], 3, (4, 8, 16, 24, 40, 100))]
+            mk_divide(1, 20), mk_divide(2, 12), mk_divide(3, 8), mk_merge(4, 3), mk_merge(5, 2), mk_plan(3, 3, 3), mk_plan(2, 4, 2), mk_plan_general(6, (4, 8, 16, 30)), mk_plan_general(7, (2, 3, 4, 8, 16), single1=True), mk_auto(12, 64), mk_auto_prev([(6, 6), (8, 5), (12, 12), (7, 9), (20, 20)], 3, (4, 8, 16, 24, 40, 100), "tiling"), mk_auto_prev([(6, 6), (8, 5), (12, 12), (7, 9), (20, 20)], 3, (4, 8, 16, 24, 40, 100), "bound")]
